@@ -394,7 +394,6 @@ func (w *World) controlDependsOnComments(v ssa.Value) bool {
 	return false
 }
 
-
 // ruleC12R6: SplitRawStatements and the parser run the same lexer. Every Lexer the module constructs is configured the
 // same way: the composite literals of memefish.Lexer set the same fields (today: File only). A mode switch that only the
 // splitter turns on ("lenient literals") makes the two disagree about where a token ends — the splitter then cuts
